@@ -206,7 +206,7 @@ def handle (codes : List (Nat × List Nat)) (line : String) : String :=
         let addrs := (cr.map (·.1)).eraseDups.toArray.qsort (· < ·) |>.toList
         String.join (addrs.map fun a => s!"C{hexN a}=" ++ String.join (((codeOf cr a).getD []).map hex2) ++ ";")
       let names := (sat.map fun e =>
-        s!"{outName e.e}:{String.join (e.e.data.map fun b => hex2 (b.eval I))}:{allSto e.stores}{logStr e.logs}{balStr e.bal}{crStr e.e.st.created}").toArray.qsort (· < ·) |>.toList
+        s!"{outName e.e}:{String.join (e.e.data.map fun b => hex2 (b.eval I))}:{allSto e.stores}{logStr e.logs}{balStr e.bal}{crStr e.created}").toArray.qsort (· < ·) |>.toList
       s!"sat={if names.isEmpty then "-" else ",".intercalate names}"
     | _, _, _, _, _, _, _, _, _ => "bad-op"
   | ["steps", code, nargs, loop, fuel, orc] =>
